@@ -571,12 +571,16 @@ func simC05Histories(c *Ctx) {
 	b := start.Refine()
 	c.API("Value.Refine")
 	type snap struct {
-		v     cty.Value
-		fp    string
-		at    int
-		model c05Model
+		v       cty.Value
+		fp      string
+		at      int
+		model   c05Model
+		lineage []c05Call // the accepted calls this value is the result of
+		unsure  bool      // ... one of which the statement leaves open (accepted or rejected)
 	}
 	var snaps []snap
+	var lineage []c05Call
+	unsure := false
 	nCalls := 1 + c.G(12)
 	accepted := 0
 	for i := 0; i < nCalls; i++ {
@@ -605,6 +609,8 @@ func simC05Histories(c *Ctx) {
 			}
 			b = last.Refine()
 			*m = snaps[len(snaps)-1].model // the model goes back to what was stated when that snapshot was taken
+			lineage = append([]c05Call(nil), snaps[len(snaps)-1].lineage...)
+			unsure = snaps[len(snaps)-1].unsure
 			continue
 		}
 		if nb != b {
@@ -623,7 +629,9 @@ func simC05Histories(c *Ctx) {
 		}
 		update()
 		accepted++
+		lineage = append(lineage, k)
 		if exp == expEither {
+			unsure = true
 			c.Probe("c05.ambiguous-accepted")
 		}
 		// earlier snapshots must not have moved
@@ -644,7 +652,7 @@ func simC05Histories(c *Ctx) {
 		observe(c, v, "RefinementBuilder.NewValue")
 		c.Event("snapshot after call %d: %s", i, fp(v))
 		c05CheckSnapshot(c, m, start, v, cands, k)
-		snaps = append(snaps, snap{v, fp(v), i, *m})
+		snaps = append(snaps, snap{v, fp(v), i, *m, append([]c05Call(nil), lineage...), unsure})
 		if c.G(4) == 3 && !(v.IsKnown() && !m.known && !m.startNull && !m.dynamic) {
 			// continue from the snapshot: exercises refining an already-refined value
 			b = v.Refine()
@@ -659,6 +667,33 @@ func simC05Histories(c *Ctx) {
 	}
 	if accepted > 0 {
 		c.NonTrivial()
+	}
+	// the reported range is what the stated constraints imply - not what the order of stating them implies: the
+	// constraints behind the last snapshot, stated again in a drawn order on a fresh builder, must all be accepted
+	// (a consistent set has no inconsistent subset) and must describe the same value
+	if len(snaps) > 0 {
+		last := snaps[len(snaps)-1]
+		if len(last.lineage) >= 2 && !last.unsure {
+			perm := append([]c05Call(nil), last.lineage...)
+			for i := len(perm) - 1; i > 0; i-- {
+				j := c.G(i + 1)
+				perm[i], perm[j] = perm[j], perm[i]
+			}
+			b2 := start.Refine()
+			for _, k := range perm {
+				if _, pan := c05Apply(b2, k); pan != nil {
+					c.Fail("C05", "rejected-consistent", "rejected-in-other-order:"+c05OpNames[k.op],
+						"%s was rejected (panic: %v) when the constraints %v, all accepted in that order, were stated in the order %v", k, pan, last.lineage, perm)
+					return
+				}
+			}
+			v2 := b2.NewValue()
+			observe(c, v2, "RefinementBuilder.NewValue")
+			if !v2.RawEquals(last.v) {
+				c.Fail("C05", "range-depends-on-order", "range-depends-on-order", "the constraints %v give %s, the same constraints in the order %v give %s", last.lineage, safeGoString(last.v), perm, safeGoString(v2))
+			}
+			c.Probe("c05.permuted-replay")
+		}
 	}
 }
 
